@@ -1518,14 +1518,15 @@ func (f *FuncCFG) ReachingCall(at ast.Node, id ast.Expr) *ast.CallExpr {
 // although only the chosen one happens).
 func (f *FuncCFG) AfterComm(pred func(ast.Node) bool) []Point {
 	var out []Point
+	// the select clauses of the function and of every helper spliced into it
 	clauses := map[*ast.CommClause]bool{}
-	ast.Inspect(f.Body, func(n ast.Node) bool {
-		if _, ok := n.(*ast.FuncLit); ok && n != ast.Node(f.Body) {
-			return false
+	for _, b := range f.G.Blocks {
+		if !b.Live {
+			continue
 		}
-		cc, ok := n.(*ast.CommClause)
-		if !ok || cc.Comm == nil {
-			return true
+		cc, ok := b.Stmt.(*ast.CommClause)
+		if !ok || cc.Comm == nil || b.Kind != cfg.KindSelectCaseBody {
+			continue
 		}
 		hit := false
 		ast.Inspect(cc.Comm, func(m ast.Node) bool {
@@ -1537,8 +1538,7 @@ func (f *FuncCFG) AfterComm(pred func(ast.Node) bool) []Point {
 		if hit {
 			clauses[cc] = true
 		}
-		return true
-	})
+	}
 	inClause := func(n ast.Node) bool {
 		for cc := range clauses {
 			if cc.Comm.Pos() <= n.Pos() && n.End() <= cc.Comm.End() {
